@@ -174,3 +174,31 @@ def replay(ctx, path, pid):
         return 0 if same else 1
     finally:
         shutil.rmtree(d, ignore_errors=True)
+
+
+def logging_independence(ctx, pid):
+    """what a parse returns must not depend on the log level: synthetic battles of the three games (creation packets that carry SEVERAL values
+    in one stream, cell-player packets, nested updates, calls) parsed in strict mode with logging off and with every record really formatted"""
+    import tempfile, random
+    from tools import battle, digest
+    tmp = tempfile.mkdtemp(prefix='verif-log-')
+    try:
+        wv = battle.wows_versions()
+        files = []
+        for v in (wv[-1], '13_2_0', wv[0]):
+            if v in wv:
+                p = os.path.join(tmp, 'w-%s.wowsreplay' % v); battle.write_wows(p, v, random.Random(11)); files.append(p)
+        for game, v in (('wot', '1_10_0'), ('wowp', '2_1_17')):
+            p = os.path.join(tmp, '%s.%s' % (v, {'wot': 'wotreplay', 'wowp': 'wowpreplay'}[game])); battle.write_simple(p, game, v, random.Random(12)); files.append(p)
+        for f in files:
+            for strict in (True, False):
+                quiet = digest.digest_of(f, strict)
+                with common.debug_logging(): loud = digest.digest_of(f, strict)
+                ctx.case(('logging-independence', os.path.basename(f), strict)); ctx.count('logging:off-vs-debug')
+                if quiet != loud:
+                    keep = os.path.join(common.VERIF, 'evidence', 'replays', '%s-logging-%s' % (pid, os.path.basename(f))); shutil.copy(f, keep)
+                    ctx.violation(dict(kind='result-depends-on-log-level', file=keep, strict=strict, digest_logging_off=quiet, digest_logging_debug=loud,
+                                       how='tools.digest.digest_of(file, strict) with logging disabled and inside tools.common.debug_logging() (root logger at DEBUG with a formatting handler, as --log_level DEBUG sets up)'))
+                    return
+    finally:
+        shutil.rmtree(tmp, ignore_errors=True)
